@@ -147,4 +147,39 @@ theorem normaliseWs_idempotent (s : List Char) : normaliseWs (normaliseWs s) = n
 example : normaliseWs ['(', ' ', '\n', 'a', ' ', ' ', '+', '\t', 'b', ' ', ')'] = ['(', 'a', ' ', '+', ' ', 'b', ')'] := by
   decide
 
+/-! ## Non-vacuity (review): the hypotheses of the theorems above at concrete inputs -/
+
+-- scan_render / layout_invariance_scan / layout_invariance_terms: h₁, h₂, h at `demo` vs `demoTight` (18 tokens, 8 terms)
+example : (scanTerms (renderAll demo)).map strip = (scanTerms (renderAll demoTight)).map strip ∧
+    ((scanTerms (renderAll demo)).map strip).length = 8 :=
+  ⟨layout_invariance_scan demo demoTight (wfB_sound _ _ (by decide)) (wfB_sound _ _ (by decide)) (by decide), by decide⟩
+example : termsOf (scanTerms (renderAll demo)) = termsOf (scanTerms (renderAll demoTight)) ∧
+    (termsOf (scanTerms (renderAll demo))).isSome = true :=
+  ⟨layout_invariance_terms demo demoTight (wfB_sound _ _ (by decide)) (wfB_sound _ _ (by decide)) (by decide), by decide⟩
+-- termsOf_congr: its hypothesis, for the two real scans (which differ: the spans are not the same)
+example : (scanTerms (renderAll demo)).map strip = (scanTerms (renderAll demoTight)).map strip ∧
+    scanTerms (renderAll demo) ≠ scanTerms (renderAll demoTight) := by decide
+-- explicit_zero is not the equation `none = none`: `[0]` and no index both parse to the integer 0; `[-1]` does not
+example : indexOf .variable (some ['0']) = some (.int 0) ∧ indexOf .variable none = some (.int 0) ∧
+    indexOf .variable (some ['-', '1']) = some (.int (-1)) := by decide
+-- split_concat_lines / split_concat: `Complete` for a two-line statement, followed by a second statement
+example : splitGo .init (splitLines ['Y', '=', '(', 'X', '\n', ')'] ++ [['Z', '=', '1']]) =
+    ([['Y', '=', '(', 'X', '\n', ')'], ['Z', '=', '1']], .ok) := by
+  have := (split_concat_lines (splitLines ['Y', '=', '(', 'X', '\n', ')']) [['Z', '=', '1']]
+    (by unfold Complete; decide)).1
+  rw [this]; decide
+example : splitStatements (['Y', '=', '(', 'X', '\n', ')'] ++ '\n' :: ['Z', '=', '1']) =
+    ((splitStatements ['Y', '=', '(', 'X', '\n', ')']).1 ++ (splitStatements ['Z', '=', '1']).1,
+     (splitStatements ['Z', '=', '1']).2) :=
+  split_concat _ _ ')' (by decide) (by decide) (by unfold Complete; decide)
+-- split_concat_error: `h` (an indented second line is an IndentationError; what follows is not looked at)
+example : endState .init (splitLines ['Y', '=', 'X', '\n', ' ', 'Z', '=', '1']) = none ∧
+    splitGo .init (splitLines ['Y', '=', 'X', '\n', ' ', 'Z', '=', '1']) = ([['Y', '=', 'X']], .indentationError) := by
+  decide
+example : splitGo .init (splitLines ['Y', '=', 'X', '\n', ' ', 'Z', '=', '1'] ++ [['W', '=', '2']]) =
+    splitGo .init (splitLines ['Y', '=', 'X', '\n', ' ', 'Z', '=', '1']) :=
+  split_concat_error _ _ (by decide)
+-- blank_and_comment_lines_neutral at a real statement list
+example : splitGo .init ([] :: ['#', 'c'] :: [['Y', '=', 'X']]) = ([['Y', '=', 'X']], .ok) := by decide
+
 end Fsic.C14
